@@ -153,6 +153,64 @@ def flush(asm, acc, batch):
     core.add_sample(acc, {'halfword': '%#06x' % h, 'expansion_line': line, 'emitted': lay.chunks[len(batch) // 2][1].hex()})
 
 
+_ELIGIBLE = None
+
+
+def eligible_set():
+    """every 32-bit instruction that is the expansion of a legal non-hint RV32C halfword (the reference eligibility relation)"""
+    global _ELIGIBLE
+    if _ELIGIBLE is None:
+        _ELIGIBLE = {}
+        for h in range(65536):
+            k, i = rv.decode16(h)
+            if k == 'legal':
+                _ELIGIBLE.setdefault(tuple(sorted(rv.expand16(i).items())), h)
+    return _ELIGIBLE
+
+
+def pseudo_case(asm, acc, seed, idx):
+    """instructions that come out of pseudo-instruction expansions (li, mv, ret, nop, jr, near j / call / tail / beqz with *literal*
+    operands only) are instructions with literal operands too: under -c none of them may stay 32 bits wide if it equals the
+    expansion of a legal RVC instruction"""
+    from .. import sem
+    from . import c05
+    rng = random.Random('c20-pseudo-%d-%d' % (seed, idx))
+    items = []
+    R = lambda: {'r': rng.choice([1, 2, 5, 8, 9, 15, 31, 0])}  # noqa
+    for _ in range(40):
+        c = rng.random()
+        if c < 0.45:
+            v = rng.choice(c05.li_values(rng, 60))
+            items.append({'k': 'pseudo', 'm': 'li', 'ops': [R(), {'i': v}]})
+        elif c < 0.7:
+            m = rng.choice(['mv', 'not', 'neg', 'seqz', 'snez', 'sltz', 'sgtz'])
+            items.append({'k': 'pseudo', 'm': m, 'ops': [R(), R()]})
+        elif c < 0.85:
+            items.append({'k': 'pseudo', 'm': rng.choice(['nop', 'ret', 'fence']), 'ops': []})
+        elif c < 0.95:
+            items.append({'k': 'pseudo', 'm': rng.choice(['jr', 'jalr']), 'ops': [R()]})
+        else:
+            items.append(randprog.plain_inst(rng, 0.5))
+    ex = progcheck.examine(asm, items, True, judge=False)
+    acc['n'] += 1
+    if not ex.ok or ex.layout_problem:
+        acc['ctr']['pseudo_program_refused'] += 1
+        return
+    el = eligible_set()
+    for it, (st, data) in zip(items, ex.lay.chunks):
+        parts = sem.decode_chunk(data)
+        if isinstance(parts, str):
+            continue
+        for size, raw, d, ci in parts:
+            acc['ctr']['expansion_instructions_checked'] += 1
+            if size == 4 and tuple(sorted(d.items())) in el:
+                core.add_viol(acc, '`%s` under -c emitted the 32-bit instruction %r (%08x), which is the expansion of the legal RVC halfword %#06x' % (
+                    P.r_item(it), d, raw, el[tuple(sorted(d.items()))]), {'kind': 'pseudo', 'seed': seed, 'idx': idx}, {'chunk': data.hex()})
+            elif size == 2:
+                acc['ctr']['expansion_instructions_compressed'] += 1
+    acc['ntkeys'].add(core.ckey('pseudo', seed, idx))
+
+
 MONO_CFGS = [
     dict(),
     dict(w_xfer=30, w_li=12, w_align=10, labels=(2, 8)),
@@ -197,6 +255,9 @@ def run_shard(sh, deadline):
     acc = core.new_acc()
     if sh['kind'] == 'elig':
         elig_shard(asm, acc, sh, deadline)
+    elif sh['kind'] == 'pseudo':
+        for idx in range(sh['lo'], sh['hi']):
+            pseudo_case(asm, acc, sh['seed'], idx)
     else:
         for idx in range(sh['lo'], sh['hi']):
             mono_case(asm, acc, sh['seed'], idx)
@@ -212,6 +273,8 @@ def plan(tier, seed):
     n = 3000 if tier == 'quick' else 100000
     st = 100 if tier == 'quick' else 1000
     shards += [{'kind': 'mono', 'seed': seed, 'lo': lo, 'hi': min(n, lo + st)} for lo in range(0, n, st)]
+    npz = 320 if tier == 'quick' else 16000
+    shards += [{'kind': 'pseudo', 'seed': seed, 'lo': lo, 'hi': lo + 20} for lo in range(0, npz, 20)]
     return {'shards': shards, 'budget_s': 300 if tier == 'quick' else 3000, 'exhaustive': True}
 
 
@@ -251,6 +314,8 @@ def replay(case):
             core.add_viol(acc, 'the expansion %r of legal halfword %#06x is refused with -c: %s' % (line, h, o.exc['msg']), case, {})
         else:
             judge_line(acc, h, e, line, o.out, {'sp': case['sp'], 'alone': True})
+    elif case['kind'] == 'pseudo':
+        pseudo_case(asm, acc, case['seed'], case['idx'])
     elif case['kind'] == 'eligbatch':
         lay = monitors.layout(asm, case['lines'], compress=True)
         acc['n'] += 1
